@@ -172,6 +172,31 @@ def check(case, ctx):
             d = pmodel.diff(pmodel.expected(E), pmodel.observed(ann)) if st == 'ok' else {'parse': str(ann)}
             if d:
                 ctx.fail('condense-vs-explicit', s_exp, c[1], diff=d, **info)
+        # one parsed annotation of the rule form used for every question in turn: each answer still equals the explicit
+        # form's (count -> condense -> mass -> condense again -> fragment), and the object still writes the rule form
+        st, obj = lib.call(p.parse, s_rule)
+        if st == 'ok' and cb[0] == 'ok' and b[0] == 'ok':
+            r = lib.call(p.count_residues, obj)
+            if r[0] != 'ok' or _norm_counter(p, r[1]) != _norm_counter(p, cb[1]):
+                ctx.fail('reused-count_residues', _norm_counter(p, cb[1]), _v(r), **info)
+            for step in ('first', 'second'):
+                r = lib.call(p.condense_static_mods, obj)
+                st2, ann = lib.call(p.parse, r[1]) if r[0] == 'ok' else ('err', r[1])
+                d = pmodel.diff(pmodel.expected(E), pmodel.observed(ann)) if st2 == 'ok' else {'raises': str(ann)}
+                if d:
+                    ctx.fail('reused-condense-vs-explicit', s_exp, _v(r), diff=d, step=step, **info)
+                m = lib.call(p.mass, obj)
+                if m[0] != 'ok' or not lib.close(m[1], ref, 1e-5):
+                    ctx.fail('reused-mass-vs-reference', ref, _v(m), step=step, **info)
+                r = lib.call(lambda: obj.condense_static_mods(inplace=False).serialize())
+                st2, ann = lib.call(p.parse, r[1]) if r[0] == 'ok' else ('err', r[1])
+                d = pmodel.diff(pmodel.expected(E), pmodel.observed(ann)) if st2 == 'ok' else {'raises': str(ann)}
+                if d:
+                    ctx.fail('reused-method-condense-vs-explicit', s_exp, _v(r), diff=d, step=step, **info)
+            ctx.evals += 9
+            r = lib.call(obj.serialize)
+            if r[0] != 'ok' or pmodel.diff(pmodel.expected(P), pmodel.observed(p.parse(r[1]))):
+                ctx.fail('reused-object-changed', s_rule, _v(r), **info)
         ctx.outcome = [s_rule, s_exp]
     else:
         labs = case['labels']
